@@ -40,7 +40,7 @@ def ruleFails (r : Rule) (P : Program) : Bool := !decide (r.Holds P)
 
 /-- which known gap between what is enforced and what is specified makes an accepted program ill-formed -/
 def gapLabel (P : Program) : String :=
-  if !decide (WellFormedAsEnforced P) then "model-accepts-ill-formed"
+  if !decide (WellFormedVisitedOnly P) then "model-accepts-ill-formed"
   else if ruleFails (placementRule true) P || ruleFails (repeatRule true) P then "D-04b-unvisited-typeref-attributes"
   else "model-accepts-ill-formed"
 
